@@ -20,6 +20,8 @@ var Kinds = []string{
 	"bad-require-instance", "bit-position-too-large", "unknown-grouping",
 	"augment-target-missing", "deviation-target-missing", "typedef-with-bad-range",
 	"fraction-digits-out-of-range", "bad-default-config-value",
+	"nested-union-with-unknown-member", "nested-union-through-typedef-cycle", "duplicate-union-member-with-bad-range",
+	"prefixed-builtin-name",
 }
 
 var prefixLine = regexp.MustCompile(`(?m)^\s*(prefix \S+;|belongs-to \S+ \{ prefix \S+; \})\s*$`)
@@ -121,6 +123,18 @@ func Inject(r *rand.Rand, t string) (string, string) {
 		}
 	case "fraction-digits-out-of-range":
 		nt, ok = anyType("type decimal64 { fraction-digits 19; }")
+	case "nested-union-with-unknown-member":
+		nt, ok = anyType("type union { type union { type nosuchinner; type string; } type int8; }")
+	case "nested-union-through-typedef-cycle":
+		if nt, ok = anyType("type union { type union { type zzloop; type string; } type int8; }"); ok {
+			nt, ok = afterHeader(nt, "typedef zzloop { type union { type union { type zzloop; } type boolean; } }")
+		}
+	case "duplicate-union-member-with-bad-range":
+		nt, ok = anyType(`type union { type uint8; type uint8 { range "0..300"; } }`)
+	case "prefixed-builtin-name":
+		if p := ownPrefix(t); p != "" {
+			nt, ok = anyType("type " + p + ":string;")
+		}
 	case "bad-default-config-value":
 		nt, ok = replaceOne(r, t, "config true;", "config maybe;")
 		if !ok {
